@@ -13,7 +13,11 @@ needs: Python's argument binding, coroutine objects, `==` vs `is`, and decorator
   invocation) with a signature;
 * calling a callable yields a result, the events it emitted (write-only) and the new `World` (the invocation counters
   the scripts read) — decorators cannot influence the functions below them except through the calls they make;
-* calling a coroutine function runs nothing and returns a coroutine object (`Val.coro`), awaiting it runs the body.
+* calling a coroutine function runs nothing and returns a coroutine object (`Val.coro`), awaiting it runs the body;
+* the class argument of `overrides` is a `ClassDesc` (class bodies along the MRO, bodies along the metaclass' MRO, the
+  metaclass hooks `__getattr__` / `__dir__`); the tests the generated text makes on it (`name in dir(base)`, `hasattr`,
+  `name in base.__dict__`, `getattr(base, name, None)` is None / truthy / callable) are computed by a model of CPython's
+  attribute lookup on class objects.
 -/
 namespace PedVerif.Utility
 open PedVerif.Gen.Wrappers
@@ -162,12 +166,77 @@ def Guard.argsWithoutSelf (g : Guard) (n : Nat) : Nat :=
 /-- `assert_uses_kwargs` raises -/
 def Guard.trips (g : Guard) (a : Args) : Bool := g.shouldHaveKwargs && decide (g.argsWithoutSelf a.pos.length > 0)
 
+/-! ### Classes as `overrides` sees them (environment model: CPython's attribute lookup on a class object)
+
+A class is described by what its class body and the bodies of its ancestors bind (in MRO order), what the bodies along the
+MRO of its *metaclass* bind, and the two hooks a metaclass can install (`__getattr__`, `__dir__`).  From this description
+the model computes what the tests a decorator could make on the class evaluate to:
+`dir(cls)`, `cls.__dict__`, `hasattr(cls, n)`, `getattr(cls, n, None)`.
+The harness derives the description from the raw `__mro__` / `__dict__` of the generated classes and compares every one of
+these computed observations with the real `dir` / `hasattr` / `getattr` on every case. -/
+
+/-- how class attribute access shows the object bound to a name (after the descriptor protocol): is it `None`, is it
+    truthy, is it callable -/
+structure Seen where
+  isNone : Bool
+  truthy : Bool
+  callable : Bool
+deriving DecidableEq, Repr
+
+structure Member where
+  name : Nat            -- interned attribute name
+  seen : Seen
+deriving DecidableEq, Repr
+
+structure ClassDesc where
+  /-- the class bodies along `cls.__mro__`: the class itself first, `object` last -/
+  mro : List (List Member)
+  /-- the bodies along `type(cls).__mro__` (non-data descriptors and plain values; the harness never binds a data descriptor there) -/
+  metaMro : List (List Member)
+  /-- the metaclass defines `__getattr__`, which answers every missing name with this object -/
+  metaGetattr : Option Seen
+  /-- the metaclass overrides `__dir__`: the names it returns -/
+  dirOverride : Option (List Nat)
+deriving DecidableEq, Repr
+
+/-- the first body along an MRO that binds `n` -/
+def findMember (n : Nat) : List (List Member) → Option Seen
+  | [] => none
+  | body :: rest =>
+    match body.find? (fun m => m.name == n) with
+    | some m => some m.seen
+    | none => findMember n rest
+
+/-- `dir(cls)` (`type.__dir__`): the keys of the `__dict__` of the class and of every class on its MRO — values and the
+    metaclass play no role — unless the metaclass overrides `__dir__` -/
+def ClassDesc.dir (c : ClassDesc) : List Nat :=
+  match c.dirOverride with
+  | some l => l
+  | none => c.mro.flatten.map (·.name)
+
+/-- `getattr(cls, n)` (`type.__getattribute__` without data descriptors on the metaclass): the MRO of the class, then the MRO
+    of the metaclass, then the metaclass' `__getattr__`; `none`: AttributeError -/
+def ClassDesc.getattr (c : ClassDesc) (n : Nat) : Option Seen :=
+  match findMember n c.mro with
+  | some s => some s
+  | none =>
+    match findMember n c.metaMro with
+    | some s => some s
+    | none => c.metaGetattr
+
+/-- `n in cls.__dict__` -/
+def ClassDesc.owns (c : ClassDesc) (n : Nat) : Bool :=
+  match c.mro with
+  | [] => false
+  | body :: _ => body.any (fun m => m.name == n)
+
 /-- the arguments a decorator factory was applied to -/
 structure Params where
   param : Obj                    -- `return_value` of mock / trace_if_returns
   renames : List (Nat × Nat)     -- `Rename(from_, to)` rules of rename_kwargs, in order
   other : Body                   -- `other_func` of does_same_as_function
-  baseHasName : Bool             -- overrides: the original name is in `dir(base_class)`
+  base : ClassDesc               -- overrides: `base_class`
+  fname : Nat                    -- overrides: the (interned) name of the decorated function
   guard : Guard
 
 inductive Fn where
@@ -284,8 +353,23 @@ def evalCond (fr : Frame) (l : Locals) : Cond → Option Bool
   | .isNot a b => (evalCmp fr l Val.pyIs a b).map (!·)
   | .wrappedIsCoroutine => some fr.calleeIsCoro
   | .otherIsCoroutine => some fr.p.other.isCoro
-  | .baseHasName => some (fr.nameOk && fr.p.baseHasName)
+  -- `fr.nameOk`: the callable handed to the decorator still carries the decorated function's own `__name__`; a wrapper
+  -- without `@wraps` is called `wrapper` / `async_wrapper`, which no generated class binds or answers
+  | .baseHasName => some (fr.nameOk && fr.p.base.dir.contains fr.p.fname)
+  | .baseHasAttr => some (fr.nameOk && (fr.p.base.getattr fr.p.fname).isSome)
+  | .baseOwnsName => some (fr.nameOk && fr.p.base.owns fr.p.fname)
+  | .baseAttrIsNone => some (match (if fr.nameOk then fr.p.base.getattr fr.p.fname else none) with | some s => s.isNone | none => true)
+  | .baseAttrTruthy => some (match (if fr.nameOk then fr.p.base.getattr fr.p.fname else none) with | some s => s.truthy | none => false)
+  | .baseAttrCallable => some (match (if fr.nameOk then fr.p.base.getattr fr.p.fname else none) with | some s => s.callable | none => false)
   | .not c => (evalCond fr l c).map (!·)
+  | .and_ a b =>
+    match evalCond fr l a with
+    | some true => evalCond fr l b
+    | r => r
+  | .or_ a b =>
+    match evalCond fr l a with
+    | some false => evalCond fr l b
+    | r => r
 
 def mkArgs (fr : Frame) (l : Locals) : PosSrc → KwSrc → Args
   | .args, .kwargs => fr.args
